@@ -91,7 +91,7 @@ def topologies():
     T["two_journeys_sharing_job"] = s
     # two servers (on-premise + serverless), shared network, job repeated in a journey, multi-hour step
     s = base_spec()
-    s["storages"]["st1"] = {"data_storage_duration": (3, "hour")}
+    s["storages"]["st1"] = {"data_storage_duration": (3, "hour"), "base_storage_need": (1, "TB")}
     s["servers"]["srv1"] = {"storage": "st1", "server_type": "serverless"}
     s["servers"]["srv0"]["server_type"] = "on-premise"
     s["jobs"]["job1"] = {"server": "srv1", "request_duration": (90, "min"), "data_transferred": (3, "MB")}
@@ -110,6 +110,30 @@ def topologies():
     s["system"]["ups"] = ["up0", "up1"]
     s["servers"]["srv0"].update({"server_type": "on-premise", "fixed_nb_of_instances": (5000, "dimensionless")})
     T["jobless_journey"] = s
+    # two independent chains (no job shared between usage patterns): strict ground for every comparison
+    s = base_spec()
+    s["storages"]["st1"] = {"base_storage_need": (2, "TB")}
+    s["servers"]["srv1"] = {"storage": "st1", "server_type": "serverless"}
+    s["jobs"]["job1"] = {"server": "srv1", "request_duration": (3, "min"), "data_transferred": (1, "MB")}
+    s["jobs"]["job2"] = {"server": "srv1", "data_stored": (1, "MB")}
+    s["steps"]["step1"] = {"jobs": ["job1", "job2", "job1"], "user_time_spent": (61, "min")}
+    s["steps"]["step2"] = {"jobs": ["job2"], "user_time_spent": (10, "min")}
+    s["journeys"]["uj1"] = {"steps": ["step1", "step2"]}
+    s["networks"]["net1"] = {"bei": (0.12, "kWh/GB")}
+    s["countries"]["c1"] = {"tz": "kathmandu", "aci": (635, "g/kWh")}
+    s["devices"]["dev1"] = {"power": (1, "W"), "cff": (30, "kg")}
+    s["ups"]["up1"] = {"journey": "uj1", "devices": ["dev1"], "network": "net1", "country": "c1", "start": "2025-01-01T02", "values": [2, 1, 0, 0, 3, 1, 2]}
+    s["system"]["ups"] = ["up0", "up1"]
+    T["two_independent_chains"] = s
+    # one server shared by the (distinct) jobs of two journeys; shared network, country and device
+    s = base_spec()
+    s["jobs"]["job1"] = {"server": "srv0", "request_duration": (40, "min"), "ram_needed": (300, "MB")}
+    s["steps"]["step1"] = {"jobs": ["job1"], "user_time_spent": (45, "min")}
+    s["journeys"]["uj1"] = {"steps": ["step1"]}
+    s["ups"]["up1"] = {"journey": "uj1", "devices": ["dev0"], "network": "net0", "country": "c0", "start": "2025-01-01T04", "values": [1, 2, 3, 4, 5, 6]}
+    s["system"]["ups"] = ["up0", "up1"]
+    s["storages"]["st0"] = {"base_storage_need": (1, "TB")}
+    T["server_shared_by_two_journeys"] = s
     return T
 
 
@@ -180,7 +204,8 @@ def phys_of_quantity(q):
 def view(v):
     """concrete twin of the abstract view of an explainable value"""
     if isinstance(v, dict):
-        return {"dict": {getattr(k, "name", str(k)): view(x) for k, x in v.items()}}
+        # an Empty entry carries no quantity: {up: Empty} and a missing key are the same physical content
+        return {"dict": {getattr(k, "name", str(k)): view(x) for k, x in v.items() if not isinstance(x, EmptyExplainableObject)}}
     if isinstance(v, EmptyExplainableObject): return {"empty": True}
     if isinstance(v, ExplainableHourlyQuantities):
         s = v.value["value"].pint.to_base_units()
@@ -244,8 +269,9 @@ def total(view_):
 # ---------------------------------------------------------------------------------------------------- edits
 class Edit:
     """an edit that can be applied to a live system and to its spec"""
-    def __init__(self, name, live, spec):
+    def __init__(self, name, live, spec, change=None):
         self.name, self.live, self.spec = name, live, spec
+        self.change = change      # b -> [old value object, new value]: lets several edits be grouped in one ModelingUpdate
 
     def __repr__(self): return self.name
 
@@ -257,7 +283,7 @@ def _setq(objname, attr, pair, speckey=None, section=None):
             if objname in s[sec]:
                 s[sec][objname][speckey or attr] = pair; return
         raise KeyError(objname)
-    return Edit(f"{objname}.{attr}={pair[0]} {pair[1]}", live, spec)
+    return Edit(f"{objname}.{attr}={pair[0]} {pair[1]}", live, spec, change=lambda b: [getattr(b[objname], attr), Q(pair)])
 
 
 def numeric_edits(spec):
@@ -284,7 +310,9 @@ def numeric_edits(spec):
         def live(b, n=n, newvals=newvals, d=d):
             b[n].hourly_usage_journey_starts = SourceHourlyValues(create_hourly_usage_df_from_list([float(x) for x in newvals], _dt(d["start"])))
         def sp(s, n=n, newvals=newvals): s["ups"][n]["values"] = newvals
-        E.append(Edit(f"{n}.hourly_usage_journey_starts+=1", live, sp))
+        E.append(Edit(f"{n}.hourly_usage_journey_starts+=1", live, sp,
+                      change=lambda b, n=n, newvals=newvals, d=d: [b[n].hourly_usage_journey_starts, SourceHourlyValues(
+                          create_hourly_usage_df_from_list([float(x) for x in newvals], _dt(d["start"])))]))
     return E
 
 
@@ -295,11 +323,13 @@ def link_edits(spec):
         for j in journeys:
             if j != spec["ups"][up]["journey"]:
                 E.append(Edit(f"{up}.usage_journey->{j}", lambda b, up=up, j=j: setattr(b[up], "usage_journey", b[j]),
-                              lambda s, up=up, j=j: s["ups"][up].__setitem__("journey", j)))
+                              lambda s, up=up, j=j: s["ups"][up].__setitem__("journey", j),
+                              change=lambda b, up=up, j=j: [b[up].usage_journey, b[j]]))
         for nname in networks:
             if nname != spec["ups"][up]["network"]:
                 E.append(Edit(f"{up}.network->{nname}", lambda b, up=up, n=nname: setattr(b[up], "network", b[n]),
-                              lambda s, up=up, n=nname: s["ups"][up].__setitem__("network", n)))
+                              lambda s, up=up, n=nname: s["ups"][up].__setitem__("network", n),
+                              change=lambda b, up=up, n=nname: [b[up].network, b[n]]))
         for c in countries:
             if c != spec["ups"][up]["country"]:
                 E.append(Edit(f"{up}.country->{c}", lambda b, up=up, c=c: setattr(b[up], "country", b[c]),
@@ -308,13 +338,15 @@ def link_edits(spec):
         for sv in servers:
             if sv != spec["jobs"][jn]["server"]:
                 E.append(Edit(f"{jn}.server->{sv}", lambda b, jn=jn, sv=sv: setattr(b[jn], "server", b[sv]),
-                              lambda s, jn=jn, sv=sv: s["jobs"][jn].__setitem__("server", sv)))
+                              lambda s, jn=jn, sv=sv: s["jobs"][jn].__setitem__("server", sv),
+                              change=lambda b, jn=jn, sv=sv: [b[jn].server, b[sv]]))
     for st in steps:
         for jn in jobs:
             E.append(Edit(f"{st}.jobs.append({jn})", lambda b, st=st, jn=jn: b[st].jobs.append(b[jn]),
                           lambda s, st=st, jn=jn: s["steps"][st]["jobs"].append(jn)))
             E.append(Edit(f"{st}.jobs=[{jn}]", lambda b, st=st, jn=jn: setattr(b[st], "jobs", [b[jn]]),
-                          lambda s, st=st, jn=jn: s["steps"][st].__setitem__("jobs", [jn])))
+                          lambda s, st=st, jn=jn: s["steps"][st].__setitem__("jobs", [jn]),
+                          change=lambda b, st=st, jn=jn: [b[st].jobs, [b[jn]]]))
         if spec["steps"][st]["jobs"]:
             E.append(Edit(f"{st}.jobs.pop()", lambda b, st=st: b[st].jobs.pop(), lambda s, st=st: s["steps"][st]["jobs"].pop()))
     for j in journeys:
@@ -324,6 +356,29 @@ def link_edits(spec):
         if len(spec["journeys"][j]["steps"]) > 1:
             E.append(Edit(f"{j}.uj_steps.pop(0)", lambda b, j=j: b[j].uj_steps.pop(0), lambda s, j=j: s["journeys"][j]["steps"].pop(0)))
     return E
+
+
+def is_float_cancellation_rejection(ex):
+    """known finding D3: a model is rejected with a 'negative cumulative storage need' of rounding-error size although no
+    job deletes data"""
+    import re
+    m = re.search(r"negative cumulative storage need detected: (-?[0-9.e+-]+) terabyte.*delete data: \[\]", str(ex))
+    return bool(m) and abs(float(m.group(1))) < 1e-12
+
+
+def job_usage_patterns(spec):
+    out = {}
+    for up, d in spec["ups"].items():
+        if up not in spec["system"]["ups"]: continue
+        for st in spec["journeys"][d["journey"]]["steps"]:
+            for j in spec["steps"][st]["jobs"]:
+                out.setdefault(j, set()).add(up)
+    return out
+
+
+def has_shared_job(spec):
+    """a job reachable from two usage patterns: the configuration of known finding D1"""
+    return any(len(v) > 1 for v in job_usage_patterns(spec).values())
 
 
 def run_parallel(fn, items, procs=16):
